@@ -173,6 +173,14 @@ pub fn generate(rng: &mut Rng, thorough: bool) -> Vec<String> {
             v.push(format!("sw_pdtfrom {cal} {y} {m} {d}"));
         }
     }
+    // ---- month-days with their public `iso` field overwritten ----
+    for cal in ["iso8601", "gregory", "hebrew", "chinese", "japanese", "islamic-civil"] {
+        for (y, m, d) in [(1972, 1, 1), (1972, 2, 29), (1972, 2, 30), (1972, 13, 1), (1972, 0, 1), (1972, 1, 0), (1972, 12, 32), (1972, 255, 255), (1973, 2, 29),
+            (-271821, 1, 1), (275760, 12, 31), (i32::MAX as i128, 1, 1), (i32::MIN as i128, 12, 31), (0, 6, 31)] {
+            v.push(format!("sw_mdraw {cal} {y} {m} {d}"));
+            v.push(format!("sw_calraw {cal} {y} {m} {d}"));
+        }
+    }
     // ---- durations assembled from the public records, unvalidated ----
     {
         let pool = ["0", "1", "-1", "0.5", "-0.5", "1e300", "-1e300", "1.7976931348623157e308", "9007199254740992", "-9007199254740993",
@@ -433,6 +441,52 @@ pub fn eval(t: &[&str]) -> Option<String> {
             });
             // last: `Display` has no failure path of its own
             let _ = dt.to_string();
+            Some(a.done())
+        }
+        "sw_mdraw" => {
+            // PlainMonthDay's `iso` field (and IsoDate's fields) are public: any (year, month, day) can be written
+            let Some(cal) = a.r("Calendar::from_str", Calendar::from_str(t[1])) else { return Some(a.done()) };
+            let Some(mut md) = a.r("PlainMonthDay::new_with_overflow", PlainMonthDay::new_with_overflow(1, 1, cal, ArithmeticOverflow::Reject, None)) else { return Some(a.done()) };
+            md.iso.year = i(t[2]) as i32;
+            md.iso.month = i(t[3]) as u8;
+            md.iso.day = i(t[4]) as u8;
+            let _ = (md.iso_year(), md.iso_month(), md.iso_day(), md.calendar_id());
+            let _ = md.to_ixdtf_string(DisplayCalendar::Auto);
+            let _ = md.to_string();
+            let _ = md.month_code();
+            a.r("to_plain_date", md.to_plain_date());
+            let _ = Calendar::from(md.clone());
+            Some(a.done())
+        }
+        "sw_calraw" => {
+            // Calendar's field getters and arithmetic take a `&IsoDate`, a public record with public fields
+            let Some(cal) = a.r("Calendar::from_str", Calendar::from_str(t[1])) else { return Some(a.done()) };
+            let Some(md) = a.r("PlainMonthDay::new_with_overflow", PlainMonthDay::new_with_overflow(1, 31, Calendar::default(), ArithmeticOverflow::Reject, Some(2020))) else { return Some(a.done()) };
+            let other = md.iso;
+            let mut iso = md.iso;
+            iso.year = i(t[2]) as i32;
+            iso.month = i(t[3]) as u8;
+            iso.day = i(t[4]) as u8;
+            let _ = cal.era(&iso);
+            let _ = cal.era_year(&iso);
+            let _ = cal.year(&iso);
+            let _ = cal.month(&iso);
+            let _ = cal.month_code(&iso);
+            let _ = cal.day(&iso);
+            let _ = cal.day_of_week(&iso);
+            let _ = cal.day_of_year(&iso);
+            a.r("week_of_year", cal.week_of_year(&iso));
+            a.r("year_of_week", cal.year_of_week(&iso));
+            a.r("days_in_week", cal.days_in_week(&iso));
+            let _ = cal.days_in_month(&iso);
+            let _ = cal.days_in_year(&iso);
+            let _ = cal.months_in_year(&iso);
+            let _ = cal.in_leap_year(&iso);
+            if let Ok(du) = duration_from(&["0", "1", "0", "1", "0", "0", "0", "0", "0", "0"]) {
+                a.r("date_add", cal.date_add(&iso, &du, ArithmeticOverflow::Constrain));
+            }
+            a.r("date_until", cal.date_until(&iso, &other, Unit::Month));
+            a.r("date_until", cal.date_until(&other, &iso, Unit::Year));
             Some(a.done())
         }
         "sw_durraw" => {
